@@ -17,8 +17,11 @@ c_CfgsA == {"e32", "c32m"}
 c_CfgsB == {"e32"}
 c_CfgsAll == {"e32", "c32", "e16", "ci8", "e32m"}
 c_Maints1 == {"mc1"}
+c_Maints2 == {"mc2"}
 c_ALs1 == {"al1"}
 c_Targets == {"float16", "int8"}
+c_GNodes2 == {"a", "g"}
+c_Ids1 == {"a"}
 c_GNodes3 == {"a", "b", "g"}
 c_Rels1 == {"r"}
 c_Rels2 == {"r", "q"}
